@@ -344,7 +344,11 @@ Section Sim.
 
   Definition do_work (w : work) (sc : sched) : sched :=
     match w with
-    | WStart t => body_loop FUEL t (app (LStart t) sc)
+    | WStart t =>
+        match phase_of (sc_st sc) t with
+        | PCreated => body_loop FUEL t (app (LStart t) sc)
+        | _ => sc                                  (* cancelled before its first step: the coroutine never runs *)
+        end
     | WTimer t | WCancelWake t => resume w t sc
     | WCompletion t x => push_work (WWaitDone t x) sc
     | WWaitDone t _ | WCallDone t _ => resume w t sc
